@@ -163,7 +163,7 @@ def _nan(repo, col):
             if isinstance(c.func, ast.Name) and c.func.id == "query_channel_states_and_params" and len(c.args) >= 3:
                 sites.append((c, ex.term(c.args[2])))
         # direct gathers  params[key][IDX] / states[key][IDX] / voltages[IDX]  that feed the mechanism
-        for node in ast.walk(fi.node):
+        for node in walk_no_nested(fi.node):      # (a local helper's gathers are judged where it is called: its parameters are not rows)
             if isinstance(node, ast.Subscript) and isinstance(node.ctx, ast.Load) and isinstance(node.value, ast.Subscript) and \
                     isinstance(node.value.value, ast.Name) and node.value.value.id in ("params", "states"):
                 sites.append((node, ex.term(node.slice)))
